@@ -3,7 +3,8 @@ From Coq Require Import ZArith List Bool.
 From Coq Require String.
 Export String.StringSyntax.
 From GV Require Import Ref.Word Ref.EVM Sym.Term Sym.SymExec Sym.SymExecProofs Sym.Spec Sym.SpecSym
-  Val.Equiv Val.SpecCheck Val.SpecCheckProofs Model.DepPrelude Gen.DepConst Model.DepConstProofs.
+  Val.Equiv Val.SpecCheck Val.SpecCheckProofs Model.DepPrelude Gen.DepConst Model.DepConstProofs Model.Trace.
+From Coq Require Import Permutation.
 Import ListNotations.
 Local Open Scope Z_scope.
 
@@ -37,6 +38,18 @@ Theorem C02_const_dependence_sound_sto : forall k1 k2 a1 a2 s1 s2 l1 l2,
   are_dependent_const k1 k2 a1 a2 s1 s2 l1 l2 = false -> a1 <> a2.
 Proof. exact dep_const_sound_sto. Qed.
 Print Assumptions C02_const_dependence_sound_sto.
+
+(* The trace-theory core of the schedule quantifier, proved in general (Model/Trace.v): if operations that are not
+   ordered by the dependence relation commute in the semantics, then two schedules that are permutations of each other
+   and keep every dependent pair in the same order have the same semantics.  What remains unproved is the hypothesis
+   for the denotation of a specification: that every pair left unordered by the declared dependences commutes --
+   this is what [deps_complete] decides per specification (provably disjoint ranges / different keys / same value). *)
+Theorem C02_schedules_equivalent_generic : forall (op state : Type) (step : op -> state -> state) (dep : op -> op -> bool),
+  (forall a b s, dep a b = false -> dep b a = false -> step b (step a s) = step a (step b s)) ->
+  forall l1 l2, NoDup l1 -> Permutation l1 l2 -> keeps_dep_order op dep l1 l2 ->
+  forall s, run op state step l1 s = run op state step l2 s.
+Proof. exact schedules_equivalent. Qed.
+Print Assumptions C02_schedules_equivalent_generic.
 
 (* The full statement of the property quantifies over ALL admissible schedules:
      forall L, admissible S opmap L = true -> spec_check S opmap L B = true.
